@@ -200,7 +200,7 @@ type c09Witness struct {
 func init() {
 	core.Register(&core.Check{
 		ID:   "C09",
-		Rule: "template sets: all single templates, all pairs and (quick: every 40th, thorough: every) triple of the 84 paths with <=3 segments over {a, b, {x}, {y}} (no repeated variable, no two templates of identical shape), plus all singles, pairs and triples of 8 templates whose variable shares its segment with literal text (/v{x}/a, /b/img-{y}, /b/{y}.json ...) next to literal siblings, methods GET on every path and POST on every other one; servers: none, relative /v1, absolute https://h.t/base, two servers, two servers differing in scheme only, a base path with a percent-escape, capitals in the host, variables in host and base path, several servers on one host whose base paths extend each other (both orders, three deep) with literal and templated siblings of the same tail; requests: every template filled with values from {a, b, 7} under every server spelling, methods GET/POST/DELETE/HEAD (DELETE and HEAD are declared nowhere), plus near misses (trailing slash, extra segment, missing segment, root, wrong scheme, wrong host, missing base path); both routers. Soundness (returned operation is the declared one, substitution reproduces the path), completeness, literal-wins and not-found are judged by an independent segment matcher. Distinct = (router, template set, server, request); non-trivial = the set has a variable or two templates sharing a first segment.",
+		Rule: "template sets: all single templates, all pairs and (quick: every 40th, thorough: every) triple of the 84 paths with <=3 segments over {a, b, {x}, {y}} (no repeated variable, no two templates of identical shape), plus all singles, pairs and triples of 8 templates whose variable shares its segment with literal text (/v{x}/a, /b/img-{y}, /b/{y}.json ...) next to literal siblings, methods GET on every path and POST on every other one; servers: none, relative /v1, absolute https://h.t/base, two servers, two servers differing in scheme only, a base path with a percent-escape, capitals in the host, variables in host and base path, several servers on one host whose base paths extend each other (both orders, three deep) with literal and templated siblings of the same tail; requests: every template filled with values from {a, b, 7} under every server spelling, methods GET/POST/DELETE/HEAD (DELETE and HEAD are declared nowhere), plus near misses (trailing slash, extra segment, missing segment, root, wrong scheme, wrong host, missing base path); both routers. Soundness (returned operation is the declared one, substitution reproduces the path), completeness, literal-wins and not-found are judged by an independent segment matcher. Distinct = (router, template set, server, request); non-trivial = the set has a variable or two templates sharing a first segment. Nested server sets also with a server variable as host (its value shares the map of the path parameters).",
 		Assumptions: []string{
 			"a variable matches exactly one non-empty slash-free segment; a fully literal template wins over a templated one; when several templated ones match, any of them is a correct answer provided it declares the method",
 		},
